@@ -35,6 +35,10 @@ CLAIMED = {
          "hand-written model; oracle interpretation of 'one or more marks per ill-formed run'; one recorded finding (pinned tail-swallowing)"),
  "C13": ("proof", "Progress + termination theorem of the chunked reader for every stream, chunk size >= 32, policy; BOM table and BOM detection theorems over regenerated constants; ambiguity theorem; Spec encoders judge reader/writer answers at every chunk alignment/truncation.",
          "hand-written model of DetectEncoding/CEncodedStreamReader/Writer; istream modelled as (bytes, eof); chunk-independence of the decoded text validated by correspondence, not yet proved"),
+ "C14": ("proof", "Hinnant days<->civil correct for every integer day number (periodicity + endpoint table by decide +kernel + monotonicity), generated DaysInMonth/UtcBufSize; for every int64 count outside two recorded classes and all 7 precisions printing hits no UB and yields exactly the Gregorian date/time/fraction, and parsing those fields returns the count; double division of ParseSecondFractions exact. Thorough: every day of years -10000..+20000.",
+         "text layer (snprintf/from_chars), duration loops and CBinTimestamp round trip tied by correspondence/oracle only; two recorded finding classes (first day of range, int64 limits)"),
+ "C15": ("proof", "SafeDurationCast/SafeAddDuration contracts (exact value or out_of_range, all counts, 4 target reps); every accepted date-time is a real calendar date (29 February only in leap years, generated table); whole-second text never wraps for any target; year/month designators rejected; Lean recogniser judges grammar-generated and mutated strings in three widths.",
+         "division branch of SafeDurationCast proved for the ratios that occur; roundTo for inexact fractions by correspondence; recorded findings shared with C14"),
  "C16": ("proof", "Every integer of every width prints to text that parses back to itself (all string widths); for every string the parser's answer is the Spec's classification (value of the leading literal / out_of_range / invalid_argument); bool parser; printing fits the buffer. Floats: exact-arithmetic reference vs libstdc++ on all 2^32 float patterns (thorough).",
          "libstdc++ to_chars/from_chars for floats assumed (tested exhaustively for float32); std::isdigit on ASCII"),
  "C19": ("proof", "Non-interference theorem for every schedule of threads with footprints confined to private locations and shared constants; side conditions regenerated from the clang AST (all statics immutable or written only during static initialisation) and from objdump (writable-section symbols); TSan stress compares every result with the sequential run.",
